@@ -69,6 +69,15 @@ fn has_duplicate_keys(text: &str) -> bool {
     }
 }
 
+fn has_non_integer_number(v: &serde_json::Value) -> bool {
+    match v {
+        serde_json::Value::Number(n) => !(n.is_u64() || n.is_i64()),
+        serde_json::Value::Array(a) => a.iter().any(has_non_integer_number),
+        serde_json::Value::Object(o) => o.values().any(has_non_integer_number),
+        _ => false,
+    }
+}
+
 macro_rules! check {
     ($doc:expr, $w:ty, [$($p:ty),*], $disp:expr) => {{
         let bytes = $doc.as_bytes();
@@ -90,8 +99,12 @@ macro_rules! check {
             // "accept" text that is not JSON at all (`{"ping":{"x": t{0&&"...`), which the
             // wrapper -- it parses the whole text first -- rightly refuses
             (1, Err(e)) => {
-                if serde_json::from_str::<serde_json::Value>($doc).is_ok() {
-                    panic!("C03 violated: exactly one part accepts {} but the wrapper rejects it: {e}", $doc)
+                if let Ok(v) = serde_json::from_str::<serde_json::Value>($doc) {
+                    // recorded finding (wrapper-rejects:extra-field-number): an ignored field holding a
+                    // float / over-long integer is skipped by the part but parsed by the wrapper
+                    if !has_non_integer_number(&v) {
+                        panic!("C03 violated: exactly one part accepts {} but the wrapper rejects it: {e}", $doc)
+                    }
                 }
             }
             (_, Ok(w)) => {
